@@ -52,6 +52,7 @@ class PipeOps(FullOps):
     def __init__(self):
         super().__init__()
         self.strict_atoms = False  # scenario mode: atoms denote non-empty, pairwise disjoint key sets
+        self.inst = None  # instance runs: {"m": number of rows of the stack of cotangents} (sizes concrete, tensors abstract)
         self.loop_orders: list = []
         self.loop_ids: list = []
         self._lid = 0
@@ -61,6 +62,8 @@ class PipeOps(FullOps):
     def pev(self, kind, node, **data):
         """Pipeline event, numbered in execution order."""
         self.seq += 1
+        if kind in ("unpack", "pack", "range"):
+            data["stack"] = [f.qualname for f in self.interp.call_stack]  # a helper's event belongs to the stage that called it
         self.ev(kind, node, seq=self.seq, loops=list(self.loop_ids), **data)
 
     def note_value_use(self, t, node):
@@ -256,6 +259,9 @@ class PipeOps(FullOps):
             return TV(kind="pyint", poly=Poly.sym(f"len[{'+'.join(at) or '?'}]"), origin=frozenset(at), note="len")
         t = tv_of(v)
         if t is not None and is_opaque(t):
+            sp = self.rows_of(t)
+            if sp is not None:
+                return TV(kind="pyint", poly=Poly.const(self.span_len(sp)), note="len", origin=t.origin)
             if t.axes[0] == "R":
                 return self.size_tv(t, 0)
             return TV(kind="pyint", note="len", origin=t.origin)
@@ -317,13 +323,56 @@ class PipeOps(FullOps):
             return opaque(a.origin | b.origin, dtype=dt_join(a.dtype, b.dtype))
         return super().matmul(a, b, node)
 
+    # ------------------------------------------------------------------ instance runs: rows carried by a value
+    def rows_of(self, t):
+        """Row intervals of the full stack carried by `t`, in order (instance runs only); None when not known."""
+        if self.inst is None or not isinstance(t, TV):
+            return None
+        if t.rowspan == "?":
+            return None
+        if t.rowspan is not None:
+            return t.rowspan if t.axes and t.axes[0] in ("R", "K") else None
+        if t.axes and t.axes[0] == "R":
+            return ((0, self.inst["m"]),)  # a stack of cotangents nobody has sliced yet
+        return None
+
+    @staticmethod
+    def span_len(sp):
+        return sum(hi - lo for lo, hi in sp)
+
+    @staticmethod
+    def span_norm(rows):
+        out = []
+        for r in rows:
+            if out and out[-1][1] == r:
+                out[-1] = (out[-1][0], r + 1)
+            else:
+                out.append((r, r + 1))
+        return tuple(out)
+
+    @staticmethod
+    def span_rows(sp):
+        return [r for lo, hi in sp for r in range(lo, hi)]
+
+    def common_span(self, vals):
+        sp = None
+        for v in vals:
+            t = tv_of(v)
+            if t is None or t.rowspan is None:
+                continue
+            if t.rowspan == "?" or (sp is not None and sp != t.rowspan):
+                return "?"
+            sp = t.rowspan
+        return sp
+
     # ------------------------------------------------------------------ attributes
     def value_attr(self, base, attr, node, env):
         if is_opaque(base):
             t = base
             if attr == "shape":
+                sp = self.rows_of(t)
                 return ListV(items=None, elem=TV(kind="pyint", note="dim"), kind="tuple", order=(("shape:" + "+".join(sorted(t.origin)),), "same"),
-                             length=None)
+                             length=None, head=TV(kind="pyint", poly=Poly.const(self.span_len(sp)), note="dim", origin=frozenset(o + "#meta" for o in t.origin)) if sp is not None else None)
             if attr == "grad":
                 return opaque(t.origin, note="grad-field", dtype=t.dtype)
             if attr in ("grad_fn",):
@@ -349,8 +398,10 @@ class PipeOps(FullOps):
             # element / slice of an opaque shape
             if idx[0] == "index":
                 i = self.const_int(idx[1])
+                if i == 0 and base.head is not None and not base.tail:
+                    return base.head  # instance run: the number of rows is a number
                 return TV(kind="pyint", poly=Poly.sym(f"dim{i}[{base.order[0][0][6:]}]"), note="dim")
-            return base
+            return replace(base, head=None)
         return super().subscript(base, idx, node, env)
 
     def psum_note(self, v):
@@ -383,6 +434,15 @@ class PipeOps(FullOps):
                          lo_origin=sorted(lo.origin) if isinstance(lo, TV) else None, hi_origin=sorted(hi.origin) if isinstance(hi, TV) else None,
                          lo_note=lo.note if isinstance(lo, TV) else None, hi_note=hi.note if isinstance(hi, TV) else None)
                 out = out.but(layout=tuple(l for l in out.layout if l[0] != pos), alias=True)
+                if pos == 0 and self.inst is not None:
+                    sp = self.rows_of(t)
+                    cl = None if lo is None else self.const_int(lo)
+                    ch = None if hi is None else self.const_int(hi)
+                    cs = None if step is None else self.const_int(step)
+                    if sp is None or (lo is not None and cl is None) or (hi is not None and ch is None) or (step is not None and cs is None):
+                        out = out.but(rowspan="?")
+                    else:
+                        out = out.but(rowspan=self.span_norm(self.span_rows(sp)[slice(cl, ch, cs)]))
             else:
                 self.pev("index", node, axis=pos, idx=repr(part[1]), tensor_origin=sorted(t.origin))
                 iv = part[1]
@@ -603,21 +663,10 @@ class PipeOps(FullOps):
             if lst.items is not None and order is None:
                 order = (("literal-sequence",), "same")
             org = e.origin if isinstance(e, TV) else frozenset()
-            if fn in ("cat", "concatenate") and (d or 0) == 0 and isinstance(e, TV) and e.axes and e.axes[0] == "K":
-                # cat([t.unsqueeze(0) for t in ts], 0) is stack(ts, 0): every member brings one row, a fresh unit axis
-                self.pev("pack", node, fn="stack", dim=0, order=repr(order), elem=repr(e), in_loop=bool(self.loop_orders), spelled=fn)
-                lay = ((0, order, "stack"),) + tuple(e.layout)
-                return opaque(org, axes=("R", Q), layout=lay, dtype=e.dtype)
-            self.pev("pack", node, fn=fn, dim=d, order=repr(order), elem=repr(e), in_loop=bool(self.loop_orders))
-            inner = e.layout if isinstance(e, TV) else ()
-            if fn in ("stack", "vstack"):
-                dd = 0 if fn == "vstack" else (d if d is not None and d >= 0 else -1)
-                shift = 0 if fn == "vstack" and isinstance(e, TV) and e.axes and e.axes[0] in ("K", "R") else 1
-                lay = ((dd, order, fn),) + tuple((l[0] + (shift if l[0] >= dd >= 0 else 0), l[1], l[2]) for l in inner)
-                return opaque(org, axes=("R", Q), layout=lay, dtype=e.dtype if isinstance(e, TV) else "M")
-            lay = ((d if d is not None else 0, order, fn),) + tuple(l for l in inner if l[0] != d)
-            axes = (Q,) if (d or 0) == 0 and not (isinstance(e, TV) and len(e.axes) > 1) else ("R", Q)
-            return opaque(org, axes=axes, layout=lay, dtype=e.dtype if isinstance(e, TV) else "M")
+            res = self._pack(fn, d, lst, e, order, org, node)
+            if self.inst is not None and isinstance(res, TV):
+                res = res.but(rowspan=self._pack_span(fn, d, lst, e))
+            return res
         if fn in ("zeros_like", "ones_like", "empty_like", "zeros", "ones", "empty", "full", "full_like", "rand_like", "randn_like"):
             src = tv_of(a0)
             self.pev("create", node, fn=fn, like=sorted(src.origin) if isinstance(src, TV) else None)
@@ -631,6 +680,41 @@ class PipeOps(FullOps):
             return self.tensor_method(t0, fn, args[1:], kwargs, node, env)
         self.pev("opaque_op", node, fn=lib + fn)
         return opaque()
+
+    def _pack_span(self, fn, d, lst, e):
+        """Rows carried by cat/stack/vstack of `lst` (instance runs)."""
+        rowlike = isinstance(e, TV) and e.axes and e.axes[0] in ("R", "K")
+        along_rows = (fn == "vstack" and rowlike) or (fn in ("cat", "concatenate") and (d or 0) == 0 and rowlike)
+        if not along_rows:
+            if fn in ("stack", "vstack") and (d or 0) == 0:
+                return None  # a new leading axis: a fresh stack (its rows are the members)
+            return self.common_span(lst.items if lst.items is not None else [e])
+        if lst.items is None:
+            return "?"
+        rows = []
+        for x in lst.items:
+            sp = self.rows_of(tv_of(x)) if tv_of(x) is not None else None
+            if sp is None:
+                return "?"
+            rows += self.span_rows(sp)
+        return tuple((r, r + 1) for r in rows) if rows != sorted(set(rows)) else (self.span_norm(rows) if rows else "?")
+
+    def _pack(self, fn, d, lst, e, order, org, node):
+        if fn in ("cat", "concatenate") and (d or 0) == 0 and isinstance(e, TV) and e.axes and e.axes[0] == "K":
+            # cat([t.unsqueeze(0) for t in ts], 0) is stack(ts, 0): every member brings one row, a fresh unit axis
+            self.pev("pack", node, fn="stack", dim=0, order=repr(order), elem=repr(e), in_loop=bool(self.loop_orders), spelled=fn)
+            lay = ((0, order, "stack"),) + tuple(e.layout)
+            return opaque(org, axes=("R", Q), layout=lay, dtype=e.dtype)
+        self.pev("pack", node, fn=fn, dim=d, order=repr(order), elem=repr(e), in_loop=bool(self.loop_orders))
+        inner = e.layout if isinstance(e, TV) else ()
+        if fn in ("stack", "vstack"):
+            dd = 0 if fn == "vstack" else (d if d is not None and d >= 0 else -1)
+            shift = 0 if fn == "vstack" and isinstance(e, TV) and e.axes and e.axes[0] in ("K", "R") else 1
+            lay = ((dd, order, fn),) + tuple((l[0] + (shift if l[0] >= dd >= 0 else 0), l[1], l[2]) for l in inner)
+            return opaque(org, axes=("R", Q), layout=lay, dtype=e.dtype if isinstance(e, TV) else "M")
+        lay = ((d if d is not None else 0, order, fn),) + tuple(l for l in inner if l[0] != d)
+        axes = (Q,) if (d or 0) == 0 and not (isinstance(e, TV) and len(e.axes) > 1) else ("R", Q)
+        return opaque(org, axes=axes, layout=lay, dtype=e.dtype if isinstance(e, TV) else "M")
 
     def autograd(self, fn, args, kwargs, node, env):
         names = ["outputs", "inputs", "grad_outputs", "retain_graph", "create_graph", "only_inputs", "allow_unused"]
@@ -653,7 +737,8 @@ class PipeOps(FullOps):
                  create_graph=repr(vals.get("create_graph")), create_graph_origin=sorted(vals["create_graph"].origin) if isinstance(vals.get("create_graph"), TV) else None,
                  allow_unused=vals.get("allow_unused").v if isinstance(vals.get("allow_unused"), Const) else repr(vals.get("allow_unused")),
                  materialize_grads=vals.get("materialize_grads").v if isinstance(vals.get("materialize_grads"), Const) else None,
-                 vmapped=getattr(self, "in_vmap", 0) > 0, loop_depth=len(self.loop_orders))
+                 vmapped=getattr(self, "in_vmap", 0) > 0, loop_depth=len(self.loop_orders),
+                 rowspan=self._go_span(vals.get("grad_outputs", vals.get("grad_tensors"))) if self.inst is not None else None)
         if fn == "backward":
             return NONE
         inputs = vals.get("inputs")
@@ -664,11 +749,31 @@ class PipeOps(FullOps):
         in_dt = "dt:=key"  # each gradient has the dtype of the input it belongs to
         # torch may return the very same tensor object for several inputs (e.g. both operands of an addition): results may alias each other
         elem = opaque(frozenset(["autograd"]) | (self.atoms_of(lst) if isinstance(lst, ListV) else frozenset()), note="optional" if unused else "", dtype=in_dt, alias=True)
+        if self.inst is not None:
+            elem = elem.but(rowspan=self._go_span(vals.get("grad_outputs", vals.get("grad_tensors"))))
         if isinstance(lst, ListV):
             if lst.items is not None:
                 return ListV(items=tuple(elem for _ in lst.items), kind="tuple", order=lst.order)
             return ListV(items=None, elem=elem, kind="tuple", order=lst.order)
         return elem
+
+    def _go_span(self, go):
+        """Rows of the full stack of cotangents that the grad_outputs of one sweep carry (instance runs)."""
+        if go is None:
+            return None
+        vals = (go.items if go.items is not None else [go.elem]) if isinstance(go, ListV) else [go]
+        sps = []
+        for v in vals:
+            t = tv_of(v)
+            if t is None:
+                continue
+            if t.rowspan == "?":
+                return "?"
+            sps.append(t.rowspan if t.rowspan is not None else (self.rows_of(t)))
+        sps = [x for x in sps if x is not None]
+        if not sps:
+            return None
+        return sps[0] if all(x == sps[0] for x in sps) else "?"
 
     def call_vmap(self, f, args, kwargs, node, env):
         self.pev("vmap_call", node)
